@@ -467,6 +467,51 @@ let run_sshexec fields = match fields with
        (match anon_exec stage al with DaemonProtocol -> "daemon-protocol" | Refused -> "refused"))
   | _ -> failwith "sshexec: want 3 fields"
 
+
+(* ---- os.Root resolution ---- *)
+let parse_rnode (s : string) : rnode =
+  let pos = ref 0 in
+  let n = String.length s in
+  let rec node () : rnode =
+    if !pos >= n then failwith "rnode: eof" else
+    match s.[!pos] with
+    | 'F' -> incr pos; RFile []
+    | 'L' ->
+      incr pos;
+      let st = !pos in
+      while !pos < n && s.[!pos] <> ',' && s.[!pos] <> ')' do incr pos done;
+      RLink (bytes_of_hex (String.sub s st (!pos - st)))
+    | 'D' ->
+      incr pos;
+      if !pos < n && s.[!pos] = '(' then begin
+        incr pos;
+        let cs = ref [] in
+        let continue = ref true in
+        while !continue do
+          let st = !pos in
+          while s.[!pos] <> ':' do incr pos done;
+          let name = String.sub s st (!pos - st) in
+          incr pos;
+          let t = node () in
+          cs := (zl_of_string name, t) :: !cs;
+          if s.[!pos] = ',' then incr pos else (incr pos; continue := false)
+        done;
+        RDir (List.rev !cs)
+      end else RDir []
+    | _ -> failwith "rnode: bad char" in
+  node ()
+let string_of_zl (l : z list) : string = String.concat "" (List.map (fun b -> String.make 1 (Char.chr (int_of_z b))) l)
+let run_osroot fields = match fields with
+  | [tree; name; follow] ->
+    let t = parse_rnode tree in
+    (match root_resolve t (follow = "1") (bytes_of_hex name) with
+     | Inr EEscapes -> "err:escapes" | Inr ENotExist -> "err:notexist" | Inr ENotDir -> "err:notdir" | Inr ELoop -> "err:loop"
+     | Inl p ->
+       (match rlookup t p with
+        | None -> "err:notexist"
+        | Some _ -> if p = [] then "ok:." else "ok:" ^ String.concat "/" (List.map string_of_zl p)))
+  | _ -> failwith "osroot: want 3 fields"
+
 (* ---- option parser ---- *)
 let run_popt fields = match fields with
   | [argv] ->
@@ -594,6 +639,7 @@ let dispatch comp fields =
   | "decision" -> run_decision fields
   | "gensums" -> run_gensums fields
   | "genops" -> run_genops fields
+  | "osroot" -> run_osroot fields
   | "sshkey" -> run_sshkey fields
   | "sshexec" -> run_sshexec fields
   | "serve" -> run_serve fields
